@@ -205,8 +205,11 @@ def check_txt(case):
             for seq in itertools.product(names, repeat=n):
                 if n == 4 and seq[0] != "PEO":
                     continue
-                for parts in compositions(n):
-                    text = "\n".join(" ".join(seq[a:b]) for a, b in parts) + "\n"
+                for parts, ending in itertools.product(compositions(n), ("\n", "", "\r\n", " \n")):
+                    if ending != "\n" and n > 2:
+                        continue          # file endings (no final newline, CRLF, trailing blank) on the short sequences
+                    sep = "\r\n" if ending == "\r\n" else "\n"
+                    text = sep.join(" ".join(seq[a:b]) for a, b in parts) + ending
                     evals += 1
                     case1 = dict(kind="txt1", text=text, seq=list(seq))
                     try:
